@@ -9264,6 +9264,18 @@ class SVG(Group):
                         )
                     else:
                         attributes[SVG_ATTR_TRANSFORM] = attributes[SVG_ATTR_TRANSFORM]
+                    try:
+                        probe = Matrix(attributes[SVG_ATTR_TRANSFORM])
+                        probe.render(ppi=ppi, width=width, height=height)
+                        if isinstance(probe.e, Length) or isinstance(probe.f, Length):
+                            raise ValueError("Transform lengths cannot be resolved.")
+                    except (ValueError, IndexError, TypeError):
+                        # A malformed transform is an error of this element only: it is ignored,
+                        # the transforms of the ancestors stay in force.
+                        if SVG_ATTR_TRANSFORM in values:
+                            attributes[SVG_ATTR_TRANSFORM] = values[SVG_ATTR_TRANSFORM]
+                        else:
+                            del attributes[SVG_ATTR_TRANSFORM]
 
                 # All class and attribute properties are compiled.
                 values.update(attributes)
